@@ -11,6 +11,11 @@ def make_cases(tier, rng, want_expr=True, n_random=None, n_tiny=None, big=None):
     cases = []
     for name, src in gen.CORPUS.items():
         cases.append({"id": "corpus:" + name, "src": src, "kind": "corpus"})
+    # grammars whose known defect depended on the map iteration order of one build: built several times per run
+    for name in ("reads_cycle", "mixed_conflicts", "rr_equal_prec"):
+        if name in gen.CORPUS:
+            for k in range(6):
+                cases.append({"id": "corpus:%s#%d" % (name, k), "src": gen.CORPUS[name], "kind": "corpus"})
     if n_random is None:
         n_random = 300 if tier == "quick" else 4000
     if n_tiny is None:
